@@ -37,6 +37,10 @@ def _len(I, args, kw):
         return SInt(z3.Length(v.t))
     if isinstance(v, SSeq):
         return SInt(z3.Length(v.t))
+    if isinstance(v, HSpecList):
+        if "__len__" in v.hooks:
+            return v.hooks["__len__"](ex, v, [], {})
+        raise Unsupported(f"len of the abstracted list {v.name}")
     if isinstance(v, SBytes):
         from .specs import utf8len_term
 
